@@ -221,7 +221,48 @@ def assume_cfg(fn, assumptions):
                     if s != keep:
                         removed.add((bi, s))
                 # several values may share the kept successor only if it is the same block: fine
-    return cfg_without_edges(fn, removed)
+    g = cfg_without_edges(fn, removed)
+    return _propagate_const_flags(fn, g)
+
+
+def _propagate_const_flags(fn, g):
+    """switches on a local that is only ever assigned constants (e.g. the result of `matches!`):
+    keep only the edges for constants whose assignment is still reachable in the pruned graph."""
+    changed = True
+    g = {b: list(ss) for b, ss in g.items()}
+    while changed:
+        changed = False
+        r = reach(g, [0])
+        for bi in list(r):
+            t = fn.blocks[bi]["term"]
+            if t["k"] != "switch" or len(g.get(bi, [])) < 2:
+                continue
+            dl = op_place(t["discr"])
+            if dl is None or dl["proj"]:
+                continue
+            n = dl["local"]
+            # follow single-def copies
+            for _ in range(4):
+                ds = fn.whole_defs(n)
+                if len(ds) == 1 and ds[0][0] == "stmt" and ds[0][1]["k"] == "use" and op_place(ds[0][1]["op"]) and not op_place(ds[0][1]["op"])["proj"]:
+                    n = op_place(ds[0][1]["op"])["local"]
+                else:
+                    break
+            ds = fn.defs().get(n, [])
+            if not ds or any(d[0] != "stmt" or d[4]["proj"] or d[1]["k"] != "use" or d[1]["op"]["k"] != "const" or const_int(d[1]["op"]) is None for d in ds):
+                continue
+            vals = {const_int(d[1]["op"]) for d in ds if d[2] in r}
+            if not vals:
+                continue
+            e = switch_edges(fn, bi)
+            keep = set()
+            for v in vals:
+                keep.add(e.get(str(v), e["otherwise"]))
+            new = [s_ for s_ in g[bi] if s_ in keep]
+            if new != g[bi]:
+                g[bi] = new
+                changed = True
+    return g
 
 
 def _variants(prog, adt):
